@@ -148,4 +148,23 @@ example (junk : Int → Nat → Wv → (Int → T) → Int → T) :
   rw [key, memDemo_sim]
   decide +kernel
 
+/-- non-vacuity of `counts_faithful_mem`: the first evaluator call of that propagation (row `line 1 := BUF1(input slot 10)`,
+    operands well formed in the initial memory) -/
+example (junk : Int → Nat → Wv → (Int → T) → Int → T) : ∃ m1,
+    waveCounts (wcfg memDemo memDemoDelay) (wvOp memDemo ⟨43690, 1, 10, 6, 6, 6⟩)
+        ((OpRow.ins ⟨43690, 1, 10, 6, 6, 6⟩).map fun i => rdWave (memDemo.loc i) (memDemo.cap i) memDemoM0) =
+      countTrans false (rdWave (memDemo.loc 1) (memDemo.cap 1) m1).ents := by
+  have hrun := memDemo_run junk
+  have hso : schedOps memDemo [1, 0, 2, 3] =
+      ⟨43690, 1, 10, 6, 6, 6⟩ :: [⟨43690, 0, 9, 6, 6, 6⟩, ⟨34952, 4, 2, 3, 6, 6⟩, ⟨21845, 5, 4, 6, 6, 6⟩] := by decide +kernel
+  rw [hso] at hrun
+  obtain ⟨m1, hstep, _⟩ := waveRun_head hrun
+  refine ⟨m1, counts_faithful_mem memDemo _ _ memDemoM0 m1 memDemoDelay_nonneg (by decide +kernel) hstep ?_⟩
+  intro i hi
+  simp only [OpRow.ins, List.mem_cons, List.not_mem_nil, or_false] at hi
+  have h10 : (10 : Nat) ∈ memDemo.ppiSlots := by rw [memDemo_tables.2.2.1]; decide
+  rcases hi with rfl | rfl | rfl | rfl
+  · exact memDemo_inputs 10 (Or.inl h10)
+  all_goals exact memDemo_inputs 6 (Or.inr rfl)
+
 end KV.C13
